@@ -32,6 +32,14 @@ def run(ctx):
     want = set(hashlib.algorithms_guaranteed) | set(spec.JAVA_NAMES) | {spec.RABIN_NAME}
     ctx.check("C14.R1", "advertised set = hashlib.algorithms_guaranteed | {SHA-256, MD5} | {CRC-64-AVRO}", algs is not None and set(algs) == want, smod.relpath + ":FINGERPRINT_ALGORITHMS", f"FINGERPRINT_ALGORITHMS folds to {sorted(algs) if algs else algs}", "the advertised algorithm set differs from the documented one")
     hashing = [n for n in walk_local(f.node) if isinstance(n, ast.Call) and (norm(n.func) == "rabin_fingerprint" or (isinstance(n.func, ast.Attribute) and isinstance(n.func.value, ast.Name) and n.func.value.id == "hashlib"))]
+    if not hashing:
+        # the hashing is done somewhere else (strategy objects, helpers that were not inlined): nothing below can be
+        # decided from this function
+        for r_, txt in (("C14.R1", "unknown algorithm names raise ValueError before anything is hashed"), ("C14.R2", "Java spellings / Rabin dispatch"), ("C14.R3", "the bytes hashed are the UTF-8 encoding of the text")):
+            if r_ != "C14.R1":
+                ctx.rule(r_, txt, floor=1)
+            ctx.unrecognised(r_, "fingerprint", f.where(), "no call of rabin_fingerprint / hashlib in fingerprint: the hashing is delegated to code this rule does not follow")
+        return
     member = f"{alg_p} in FINGERPRINT_ALGORITHMS"
     nonmember = f"{alg_p} not in FINGERPRINT_ALGORITHMS"
     raises = [n for n in walk_local(f.node) if isinstance(n, ast.Raise) and n.exc is not None and "ValueError" in norm(n.exc) and nonmember in true_facts(cfg, cfg.node_of(n))]
